@@ -313,8 +313,87 @@ def _task_b(args):
     return run_b(*args)
 
 
+# ------------------------------------------------------------------ part c
+def run_c(head, how, tail_chunks):
+    """connection 0 receives `head` and is dropped (EOF / reset); connection 1 receives a clean stream"""
+    def feed_conn1(chunk):
+        def item(sess):
+            if len(sess.gw.conns) < 2 or sess.client.state != vloop.State.CONNECTED:
+                return False
+            c = sess.gw.conns[1]
+            if not c.alive or c.eof_sent:
+                return True
+            sess.pending_log.append(pending_bytes(sess.client))
+            sess.env(c.transport.env_feed, chunk)
+            return True
+        return item
+    drop = (lambda sess: (vloop.sp_eof(sess) or True)) if how == "eof" else (lambda sess: (vloop.sp_reset(sess) or True))
+
+    def final(sess):
+        sess.pending_log.append(pending_bytes(sess.client))
+        return True
+    s = vloop.Session(kind=KIND, script=[it_connect, vloop.it_feed(head, 0), drop] + [feed_conn1(c) for c in tail_chunks] + [final])
+    s.pending_log = []
+    o = s.run()
+    return s, o
+
+
+def _task_c(args):
+    """what the old connection left half received is not part of the new connection's stream: a clean stream on the
+    new connection is delivered completely and exactly, and nothing that was never sent whole is delivered"""
+    seed, = args
+    its = items(seed)
+    dec = NMEA2000Decoder()
+    heads = {"P1+part of P2": its["P1"], "noise+part of P2": its["N21"], "part of P2": b""}
+    tail_names = ["P3", "P1", "S1", "P4"]
+    tail = b"".join(its[n] for n in tail_names)
+    exp_tail = [view_of(dec, its[n]) for n in tail_names]
+    # a left-over that, glued to the first bytes of the new stream, would pass the checksum: 12 bytes of a packet whose
+    # remaining 8 bytes equal those of the new connection's first packet (same data bytes 6..7, reserved, checksum adjusted)
+    vios, runs, outcomes = [], 0, set()
+    sample = None
+    victims = {"P2": its["P2"]}
+    # a left-over whose first 12 bytes, glued to the first 8 bytes of the new stream, would pass the checksum test
+    p3 = its["P3"]
+    g = bytearray(its["P2"][:12])
+    g[5] = (p3[7] - sum(g[2:5]) - sum(g[6:12]) - sum(p3[0:7])) & 0xFF
+    assert wire.usb_checksum(bytes(g) + p3[:7]) == p3[7]
+    if MARK not in bytes(g[2:]):
+        victims["crafted"] = bytes(g) + its["P2"][12:]
+    for hname, head in heads.items():
+        for vname, victim in victims.items():
+            for j in range(1, 20):
+                for how in ("eof", "reset"):
+                    for cuts in ((), tuple(range(7, len(tail), 7)), (8,), (12,)):
+                        s, o = run_c(head + victim[:j], how, split(tail, cuts))
+                        runs += 1
+                        got = [v for _, v in o.received]
+                        exp = ([view_of(dec, its["P1"])] if hname.startswith("P1") else []) + exp_tail
+                        outcomes.add(len(got))
+                        res = None
+                        bad = sorted(k for k in ("livelock", "watchdog", "busy_loop") if o.flags.get(k))
+                        mx = max(s.pending_log) if s.pending_log else 0
+                        if bad or o.end_reason != "quiescent":
+                            res = ("hang", {"end": o.end_reason}, f"execution ended with {o.end_reason} {o.flags}")
+                        elif len(s.gw.conns) < 2 or not o.flags.get("script_done"):
+                            res = ("not_reconnected", {}, f"{len(s.gw.conns)} connection(s); status {o.status}")
+                        elif got != exp:
+                            lost = len(got) < len(exp)
+                            res = ("packet_lost" if lost else "unexpected_delivery", {"delivered": len(got), "of": len(exp), "mechanism": "state_survives_reconnect"},
+                                   f"clean stream on the new connection: delivered sids {[g[7][0][4] for g in got]}, sent {[e[7][0][4] for e in exp]}")
+                        elif mx > PENDING_BOUND:
+                            res = ("buffer_unbounded", {"pending": mx}, f"client holds back {mx} bytes after a read (bound {PENDING_BOUND})")
+                        if res:
+                            vios.append({"kind": res[0], "facts": dict(res[1], part="c"), "signature": f"c:{res[0]}:{hname}:{vname}:{how}",
+                                         "detail": f"[connection 0: {hname} ({j} bytes of {vname}), then {how}; connection 1: {tail_names} cut at {list(cuts)[:4]}] {res[2]}",
+                                         "case": {"part": "c", "head": hname, "victim": vname, "j": j, "how": how, "cuts": list(cuts), "seed": seed}})
+                        elif sample is None:
+                            sample = {"part": "c", "connection0": f"{hname}: {j} bytes of a packet, then {how}", "delivered_on_connection1": len(exp_tail)}
+    return {"runs": runs, "nontrivial": runs, "outcomes": len(outcomes), "vios": vios[:40], "sample": sample, "streams": len(heads) * len(victims) * 19}
+
+
 def _dispatch(t):
-    return _task_a(t[1]) if t[0] == "a" else _task_b(t[1])
+    return {"a": _task_a, "b": _task_b, "c": _task_c}[t[0]](t[1])
 
 
 def plan_tasks(ctx):
@@ -340,6 +419,7 @@ def plan_tasks(ctx):
             tasks.append(("a", (s3[i:i + 120], 0, ctx.seed)))
     for first in chunk_alphabet():
         tasks.append(("b", (first, 6 if ctx.thorough else 5, 12)))
+    tasks.append(("c", (ctx.seed,)))
     return tasks
 
 
@@ -351,7 +431,7 @@ def run(ctx):
     b = {"states": 0, "transitions": 0, "max_depth": 0, "closed": True, "max_pending": 0, "lassos": 0}
     for t, r in zip(tasks, results):
         vios += r["vios"]
-        if t[0] == "a":
+        if t[0] in ("a", "c"):
             runs += r["runs"]
             nontriv += r["nontrivial"]
             outcomes = max(outcomes, r["outcomes"])
@@ -371,7 +451,8 @@ def run(ctx):
         "traces_validated_against_impl": b["transitions"] + runs, "evaluations": b["transitions"] + runs,
         "distinct_nontrivial": nontriv + b["states"], "distinct_outcomes": outcomes,
         "rule": "(a) one execution per (stream over the 22-item alphabet, segmentation); non-trivial = stream mixes valid packets with "
-                "disturbances. (b) BFS over chunk sequences, state = content of the bytes the client holds back; every state counted",
+                "disturbances. (b) BFS over chunk sequences, state = content of the bytes the client holds back; every state counted. "
+                "(c) connection dropped (EOF / reset) after every prefix of a packet, clean stream on the next connection",
         "samples": samples,
         "part_b": b,
         "bound_completed": ("(a) streams <=3 items with every single cut (+7/33/100-byte chunking, byte-by-byte), <=4 items over a 9-item core; " if ctx.thorough
@@ -393,6 +474,9 @@ def replay(ctx, rep):
         stream = b"".join(its[n] for n in seq)
         s, o = run_stream(split(stream, c["cuts"]))
         return [{"kind": k, "facts": f, "detail": d, "case": c} for k, f, d in judge(seq, its, s, o, make_plan(seq, its))]
+    if c["part"] == "c":
+        r = _task_c((c.get("seed", 0),))
+        return [v for v in r["vios"] if all(v["case"][k] == c[k] for k in ("head", "victim", "j", "how", "cuts"))][:1] or r["vios"][:1]
     alpha = chunk_alphabet()
     s, o = run_stream([alpha[n] for n in c["chunks"]])
     pend = max(s.pending_log) if s.pending_log else 0
